@@ -506,9 +506,9 @@ def check_x_case(ctx, tags, spec, dev_spec, compiler, K):
     for k, msg in bad:
         if k == "dagger":
             sig = "x:dagger-survives-compile"
-        elif compiler == "Xstrict" and gp is None and default != "Xstrict":
+        elif compiler == "Xstrict" and gp is None:
             sig = "xstrict:layout-unchecked"
-        elif k == "fixed" and default != compiler:
+        elif k == "fixed":
             sig = "x:fixed-parameter-unchecked"
         else:
             sig = "%s:layout:%s" % (lc, k)
@@ -632,8 +632,8 @@ def borealis_program(case):
                 ops.BSgate(p[2 * i + 2], PI / 2) | (q[n[i + 1]], q[n[i]])
             if case["offsets"][i] is not None:
                 ops.Rgate(case["offsets"][i]) | q[n[i]]
-            if mut == "extra" and i == 2:
-                ops.Rgate(0.1) | q[n[i]]
+        if mut == "extra":
+            ops.Rgate(0.1) | q[0]
         ops.MeasureFock() | q[0]
     return prog
 
